@@ -187,7 +187,16 @@ def _tweak_shared_first(cfg: Dict, case: Dict) -> None:
     agents.insert(0, blue)
 
 
-TWEAKS = {"early_attack": _tweak_early_attack, "shared_first": _tweak_shared_first}
+def _tweak_tap_variance(cfg: Dict, case: Dict) -> None:
+    for a in cfg.get("agents", []):
+        if str(a.get("type", "")).startswith("tap-"):
+            st_ = a.setdefault("agent_settings", {})
+            st_["variance"] = 2
+            st_["frequency"] = max(int(st_.get("frequency", 3) or 3), 3)
+            st_["start_step"] = max(int(st_.get("start_step", 3) or 3), 3)
+
+
+TWEAKS = {"early_attack": _tweak_early_attack, "shared_first": _tweak_shared_first, "tap_variance": _tweak_tap_variance}
 
 
 def resolve_action(op: List, n_actions: int, meta: Optional[Dict]) -> int:
